@@ -370,9 +370,9 @@ static void check_auto(const char *fam, double val, double su, unsigned rule, lo
 
 static void family_format(void) {
     static const double classics[] = { 0.1, 0.125, 2.5, 0.5, 9.995, 99.5, 1e21, 1e-7, 1.0, 17.25, 123456.789, 0.000123456, 3.0e-5, 2.5e15, 1.5, 0.015, 999.9995, 1e15 + 0.5 };
-    static const double sus[] = { 0, 0.001, 0.015, 0.25, 0.95, 9.5, 19.5 };
+    static const double sus[] = { 0, 0.001, 0.015, 0.25, 0.95, 9.5, 19.5, 0.1, 1.0, 0.0996, 0.00104, 1.04, 10.0, 0.5, 0.05 };
     static const int lzs[] = { 0, 1, 5 };
-    static const unsigned rules[] = { 2, 9, 19, 27, 28, 29, 99 };
+    static const unsigned rules[] = { 2, 3, 9, 10, 11, 19, 27, 28, 29, 99, 100, 101, 999, 1000, 12345, 100000 };
     long evals = 0, nontriv = 0, idx = 0; size_t i, j, k; int scale, sgn, e;
     for (i = 0; i < sizeof classics / sizeof classics[0]; i++) for (sgn = 0; sgn < 2; sgn++) for (scale = -5; scale <= 20; scale++)
         for (j = 0; j < sizeof sus / sizeof sus[0]; j++) for (k = 0; k < 3; k++, idx++) {
